@@ -29,7 +29,7 @@ BOOL_OPS = ['logical_and', 'logical_or', 'logical_not', 'any']
 STRUCT = ['where', 'where_derived', 'log_softmax', 'getitem', 'iter', 'tolist', 'transpose', 't', 'T', 'permute', 'flatten', 'unsqueeze',
           'expand', 'expand_as', 'stack', 'clone', 'detach', 'copy_', 'to', 'default_to', 'project', 'dim_to_dense',
           'freshen', 'reshape', 'view', 'reshape_must', 'equal_self']
-ALL_OPS = FLOAT_BIN + SCALAR_BIN + INPLACE_T + UNARY + BOOL_OPS + STRUCT + ['where_derived', 'where_derived', 'reshape_must', 'project', 'log_softmax']
+ALL_OPS = FLOAT_BIN + SCALAR_BIN + INPLACE_T + UNARY + BOOL_OPS + STRUCT + ['where_derived', 'where_derived', 'reshape_must', 'project', 'log_softmax', 'div', 'div', 'mul', 'sub', 'copy_', 'maximum']
 SCALARS = (0.0, 1.0, -1.0, 2.0, 0.5, -3.0, math.inf, -math.inf)
 
 
@@ -46,12 +46,22 @@ def cases(draw, tier):
         tys = [tys[0]] * nd      # all dimensions of one type: square tensors, diagonals, well-typed transposes
     nfloat = draw(st.integers(2, 3))
     vals = gp.VALUES_FLOAT + ((-math.inf, math.inf) if draw(st.booleans()) else ())
-    floats = [draw(gp.tensor_specs(tys, values=vals)) for _ in range(nfloat)]
+    floats = [draw(gp.tensor_specs(tys, values=vals, defaults=gp.DEFAULTS_FLOAT if draw(st.integers(0, 3)) else (1.0, 0.0, -math.inf)))
+              for _ in range(nfloat)]        # a quarter of the tensors have the identity of mul/div, add/sub or max as default
     low = draw(gp.tensor_specs(tys[draw(st.integers(1, nd)):] if nd > 1 else tys, values=vals))
     boolean = draw(gp.tensor_specs(tys, dtype='bool'))
     proj = draw(gp.tensor_specs(tys, values=(0.0,), defaults=(0.0,), p_bcast=0.0))
     nsteps = draw(st.integers(1, 4))
     steps = []
+    if draw(st.integers(0, 5)) == 0:
+        # identity-default scenario: the sparse operand's default is the identity of the operation, which selects the
+        # "densify only the other operand" branches of add/sub/mul/div/maximum/logaddexp
+        op0 = draw(st.sampled_from(['div', 'mul', 'sub', 'add', 'maximum', 'logaddexp']))
+        ident = {'div': 1.0, 'mul': 1.0, 'sub': 0.0, 'add': 0.0, 'maximum': -math.inf, 'logaddexp': -math.inf}[op0]
+        floats[0] = draw(gp.tensor_specs(tys, values=vals, defaults=(ident,), p_dense=0.15, p_bcast=0.0))
+        floats[1] = draw(gp.tensor_specs(tys, values=vals, defaults=(7.0, 0.0, 2.0, math.inf, -1.0, -math.inf), p_dense=0.7))
+        swap = draw(st.booleans())
+        steps.append({'op': op0, 'a': 1 if swap else 0, 'b': 0 if swap else 1, 'c': 0, 'n1': 0, 'n2': 0, 'n3': 1, 'x': 1.0})
     for _ in range(nsteps):
         steps.append({'op': draw(st.sampled_from(ALL_OPS)), 'a': draw(st.integers(0, 7)), 'b': draw(st.integers(0, 7)),
                       'c': draw(st.integers(0, 7)), 'n1': draw(st.integers(0, 11)), 'n2': draw(st.integers(0, 11)),
@@ -394,6 +404,13 @@ def run_step(ctx, step, fl, bo, case, pool):
         lib(op, dst.copy_, B[0])
         ctx.require(same(lib('to_dense', B[0].to_dense), B[1], True), 'copy_-changed-source', 'copy_ changed its source', op=op)
         ctx.require(same(lib('to_dense', A[0].to_dense), A[1], True), 'clone-aliases-source', 'copy_ into a clone changed the clone\'s source', op=op)
+        if n1 % 2 == 0 and B[1].dtype != torch.bool:
+            # a later in-place operation on the destination must not reach the source of the copy (no shared storage)
+            inp = ['neg_', 'abs_', 'relu_'][n2 % 3]
+            lib(inp, getattr(dst, inp))
+            ctx.require(same(lib('to_dense', B[0].to_dense), B[1], True), 'copy_-shares-storage', f'{inp} on the destination of copy_ changed the source', op=op)
+            ctx.label('copy_-then-inplace')
+            return dst, getattr(B[1].clone(), inp)(), True
         return dst, B[1], True
     if op == 'to':
         dt = [torch.float32, torch.float64, torch.bool][n1 % 3]
